@@ -1,10 +1,13 @@
-""" Debug helper: ./tools_timeline.py <module> <seed> [level]  - prints WARN+ log records of a case. """
+""" Debug helper: ./tools_timeline.py <module> <seed> [level] [family]  - prints the log records of a case. """
 import os, sys
 sys.path.insert(0, os.path.dirname(os.path.abspath(__file__)))
 os.environ.setdefault('VSIM_ECHO', sys.argv[3] if len(sys.argv) > 3 else '30')
 import importlib
 m = importlib.import_module(sys.argv[1])
-res = m.run_case({'seed': int(sys.argv[2])})
+case = {'seed': int(sys.argv[2])}
+if len(sys.argv) > 4:
+    case['family'] = sys.argv[4]
+res = m.run_case(case)
 print([v['key'] for v in res['violations']])
 for v in res['violations'][:3]:
     print(v['msg'][:1500])
